@@ -337,7 +337,11 @@ class Contract:
         if self.self_shape is not None:
             sv = conv(self.self_shape, obj)
             for k, v in self.ghost_concrete(obj).items(): setattr(sv, k, v)
-        return S.NS(self=sv, v={k: conv(sh, a) for (k, sh), a in zip(self.params.items(), args)})
+        v = {k: conv(sh, a) for (k, sh), a in zip(self.params.items(), args)}
+        v.update(self.ghost_params_concrete(obj, args))
+        return S.NS(self=sv, v=v)
+
+    def ghost_params_concrete(self, obj, args): return {}
 
     def abstract_result(self, result): return result
 
@@ -552,6 +556,10 @@ class Exec:
         # --- builtins / library by name
         if isinstance(f, ast.Name):
             name = f.id
+            if name == 'isinstance':
+                key = ast.unparse(e)
+                if key in self.c.consts: return self.c.consts[key]
+                raise Undecided('isinstance test %s not declared by the contract' % key)
             args = [self.ev(a, ps, exits) for a in e.args]
             if name == 'len':
                 v = self.deref(ps, args[0])
@@ -631,45 +639,61 @@ class Exec:
             raise Undecided('shallow copy of a nested list at line %d' % e.lineno)
         raise Undecided('method %s on %s at line %d' % (meth, type(bv).__name__, e.lineno))
 
-    def ev_ListComp(self, e, ps, exits):
-        if len(e.generators) == 1 and not e.generators[0].ifs:
-            g = e.generators[0]
-            it = self.ev(g.iter, ps, exits) if not (isinstance(g.iter, ast.Call) and isinstance(g.iter.func, ast.Name) and g.iter.func.id in ('range', 'zip')) else None
-            itv = self.deref(ps, it) if it is not None else None
-            k = z3.Int('k!%d' % next(_ctr))
-            sub = ps.fork()
-            if isinstance(itv, SSeq):
-                n = itv.len; self.bind(g.target, itv[k], sub)
-            elif isinstance(itv, SSeq2):
-                n = itv.len; self.bind(g.target, InnerRef(it.loc, k), sub)
-            elif it is None and g.iter.func.id == 'range' and len(g.iter.args) == 1:
-                n = zint(self.ev(g.iter.args[0], ps, exits)); self.bind(g.target, k, sub)
-            elif it is None and g.iter.func.id == 'zip':
-                its = [self.ev(a, ps, exits) for a in g.iter.args]
-                vs = [self.deref(ps, x) for x in its]
-                n = vs[0].len
-                for v in vs[1:]:
-                    # zip truncates: we require equal lengths so that no element is silently dropped
-                    self.oblige('zip-equal-length@L%d' % e.lineno, ps, v.len == n, e.lineno)
-                if not isinstance(g.target, ast.Tuple): raise Undecided('zip target at line %d' % e.lineno)
-                for t, x, v in zip(g.target.elts, its, vs):
-                    self.bind(t, InnerRef(x.loc, k) if isinstance(v, SSeq2) else v[k], sub)
-            else:
-                raise Undecided('comprehension iterable at line %d' % e.lineno)
-            sub.pc.append(z3.And(k >= 0, k < n))
-            nob = len(self.obligations)
-            subexits = []
-            elt = self.ev(e.elt, sub, subexits)
-            if subexits: raise Undecided('comprehension element may raise at line %d' % e.lineno)
-            eltv = self.deref(sub, elt)
-            # obligations generated inside hold for an arbitrary k in range (k is free there)
-            if isinstance(eltv, SSeq):
-                j = z3.Int('j!%d' % next(_ctr))
-                return self.alloc(ps, SSeq2(n, z3.Lambda([k], eltv.len), z3.Lambda([k], eltv.arr)))
-            if isinstance(eltv, (z3.ExprRef, int)):
-                return self.alloc(ps, SSeq(n, z3.Lambda([k], zint(eltv))))
-            raise Undecided('comprehension element kind at line %d' % e.lineno)
-        raise Undecided('comprehension with several generators / filters at line %d (needs an abstraction)' % e.lineno)
+    def ev_ListComp(self, e, ps, exits, nested=False):
+        """[elt for target in iterable] (one generator, no filter) -> the mapped sequence.  The element is
+        evaluated once for a symbolic index k (obligations raised inside hold for an arbitrary k in range);
+        the result is a fresh array defined by a quantified axiom (substituting k)."""
+        if len(e.generators) != 1 or e.generators[0].ifs:
+            raise Undecided('comprehension with several generators / filters at line %d (needs an abstraction)' % e.lineno)
+        g = e.generators[0]
+        special = isinstance(g.iter, ast.Call) and isinstance(g.iter.func, ast.Name) and g.iter.func.id in ('range', 'zip')
+        it = None if special else self.ev(g.iter, ps, exits)
+        itv = self.deref(ps, it) if it is not None else None
+        k = fresh('ck', INT)
+        sub = ps.fork()
+        if isinstance(itv, SSeq):
+            n = itv.len; self.bind(g.target, itv[k], sub)
+        elif isinstance(itv, SSeq2):
+            n = itv.len; self.bind(g.target, InnerRef(it.loc, k), sub)
+        elif special and g.iter.func.id == 'range' and len(g.iter.args) == 1:
+            n = zint(self.ev(g.iter.args[0], ps, exits)); self.bind(g.target, k, sub)
+        elif special and g.iter.func.id == 'zip':
+            its = [self.ev(a, ps, exits) for a in g.iter.args]
+            vs = [self.deref(ps, x) for x in its]
+            n = vs[0].len
+            for v in vs[1:]:
+                # zip truncates: equal lengths are required so that no element is silently dropped
+                self.oblige('zip-equal-length@L%d' % e.lineno, ps, v.len == n, e.lineno)
+                ps.pc.append(v.len == n); sub.pc.append(v.len == n)
+            if not isinstance(g.target, ast.Tuple): raise Undecided('zip target at line %d' % e.lineno)
+            for t, x, v in zip(g.target.elts, its, vs):
+                self.bind(t, InnerRef(x.loc, k) if isinstance(v, SSeq2) else v[k], sub)
+        else:
+            raise Undecided('comprehension iterable at line %d' % e.lineno)
+        sub.pc.append(z3.And(k >= 0, k < n))
+        subexits = []
+        if isinstance(e.elt, ast.ListComp):
+            inner = self.ev_ListComp(e.elt, sub, subexits, nested=True)
+        else:
+            inner = self.ev(e.elt, sub, subexits)
+        if subexits: raise Undecided('comprehension element may raise at line %d' % e.lineno)
+        if isinstance(inner, tuple) and inner and inner[0] == 'lazyseq':
+            _, n2, k2, term = inner
+            if nested: raise Undecided('comprehension nested three deep at line %d' % e.lineno)
+            lens = fresh('comp.lens', z3.ArraySort(INT, INT)); arrs = fresh('comp', z3.ArraySort(INT, z3.ArraySort(INT, INT)))
+            ps.pc.append(S.forall_int(lambda c: z3.Implies(z3.And(c >= 0, c < n), z3.Select(lens, c) == z3.substitute(n2, (k, c))), 'cc'))
+            def body(c, j):
+                return z3.Implies(z3.And(c >= 0, c < n, j >= 0, j < z3.substitute(n2, (k, c))),
+                                  z3.Select(z3.Select(arrs, c), j) == z3.substitute(term, (k, c), (k2, j)))
+            ps.pc.append(S.forall_int(lambda c: S.forall_int(lambda j: body(c, j), 'cj'), 'cc'))
+            return self.alloc(ps, SSeq2(n, lens, arrs))
+        if isinstance(inner, (z3.ExprRef, int)):
+            term = zint(inner)
+            if nested: return ('lazyseq', n, k, term)
+            arr = fresh('comp', z3.ArraySort(INT, term.sort()))
+            ps.pc.append(S.forall_int(lambda j: z3.Implies(z3.And(j >= 0, j < n), z3.Select(arr, j) == z3.substitute(term, (k, j))), 'cj'))
+            return self.alloc(ps, SSeq(n, arr))
+        raise Undecided('comprehension element kind at line %d' % e.lineno)
 
     def ev_List(self, e, ps, exits):
         if not e.elts: return self.alloc(ps, SSeq(z3.IntVal(0), z3.K(INT, z3.IntVal(0))))
@@ -703,7 +727,9 @@ class Exec:
             new = PS(dict(cps.env), ps.heap, [])
             res_shape = getattr(callee, 'result_shape', None)
             result = make_shape(res_shape, 'result', ps.heap) if res_shape else None
-            ps.pc.append(zbool(callee.post(StateView(old), StateView(new), view_of(ps, result))))
+            cpost = callee.post(StateView(old), StateView(new), view_of(ps, result))
+            if isinstance(cpost, dict): cpost = S.And(*cpost.values())
+            ps.pc.append(zbool(cpost))
         return result
 
     # ---- statements ----------------------------------------------------------------------
@@ -718,8 +744,13 @@ class Exec:
             raise Undecided('binding target at line %d' % target.lineno)
 
     def assign(self, target, value, ps, exits):
-        if isinstance(target, (ast.Name, ast.Tuple)):
+        if isinstance(target, ast.Name):
             return self.bind(target, value, ps)
+        if isinstance(target, ast.Tuple):
+            if not isinstance(value, Tup) or len(value.items) != len(target.elts):
+                raise Undecided('tuple unpacking at line %d' % target.lineno)
+            for t, v in zip(target.elts, value.items): self.assign(t, v, ps, exits)
+            return
         if isinstance(target, ast.Attribute):
             base = self.ev(target.value, ps, exits)
             if isinstance(base, Ref) and isinstance(ps.heap[base.loc], Obj):
@@ -970,6 +1001,8 @@ class Exec:
         if c.self_shape is not None:
             env['self'] = make_shape(c.self_shape, 'self', heap)
         for pn, sh in c.params.items():
+            env[pn] = make_shape(sh, pn, heap)
+        for pn, sh in getattr(c, 'ghost_params', {}).items():
             env[pn] = make_shape(sh, pn, heap)
         ps = PS(env, heap, [])
         self.entry = PS(dict(env), dict(heap), [])
